@@ -269,6 +269,22 @@ def _run(case, ctx):
                             ctx.count("same_type_ops")
                             if got is not want:
                                 ctx.viol(f"same-type-{opn}:non-finite", {**info, "x": fx(float(x)), "y": fx(float(y)), "got": got, "want": want})
+                # the quotient of two equal values is the quotient of their SI values like any other: 0/0 is refused the way
+                # float division refuses it, inf/inf and nan/nan are nan, x/x is exactly 1 only where float division says so
+                for sv in (0.0, -0.0, math.inf, -math.inf, math.nan, va):
+                    x, y = A(sv, ua), A(sv, ua)
+                    ctx.count("equal_value_quotients")
+                    try:
+                        want_q = float(x) / float(y)
+                    except ZeroDivisionError:
+                        want_q = "ZeroDivisionError"
+                    try:
+                        got_q = fx(float(x / y))
+                    except ZeroDivisionError:
+                        got_q = "ZeroDivisionError"
+                    if got_q != (want_q if isinstance(want_q, str) else fx(want_q)):
+                        ctx.viol("same-type-div:equal-values", {**info, "x": fx(float(x)), "got": got_q, "want": want_q if isinstance(want_q, str) else fx(want_q)})
+                        break
                 # neighbouring floats are different values: a value, the next floats above it and the same value written in
                 # another unit (its SI value may or may not round to the same float) compare exactly as their SI values do
                 nbrs = [A(math.nextafter(float(a.displayvalue), math.inf), ua), A(float(a.displayvalue) * (1 + 2 ** -51), ua)]
